@@ -193,11 +193,11 @@ def t_sleep_action(it, is_async):
             p.oblige(f"{key}/raises/origin", e.tag in ("sleep_fn", "sleeper", "hook", "before_sleep", "raised-by-code"), prop=None,
                      detail=str(e.tag))
             if e.tag == "before_sleep":
-                p.oblige(f"{key}/C15/before_sleep-Exception-is-confined", z3.Not(it.lattice.isinstance_cond(e.cls_t, Exception)), prop="C15")
+                p.oblige(f"{key}/C15/before_sleep-Exception-is-confined", z3.Not(it.lattice.isinstance_cond(e.cls_t, Exception)), prop=None)
             if e.tag == "raised-by-code":
                 p.oblige(f"{key}/raises/ValueError-only-for-invalid-handler-return",
                          z3.And(it.lattice.isinstance_cond(e.cls_t, ValueError), g["handler_calls"] == gp["handler_calls"] + 1,
-                                g["sleeps"] == gp["sleeps"]), prop="C16")
+                                g["sleeps"] == gp["sleeps"]), prop=None)
             p.oblige(f"{key}/raises/ghost-bounds",
                      z3.And(g["now"] >= gp["now"], g["sleeps"] >= gp["sleeps"], g["sleeps"] <= gp["sleeps"] + 1,
                             g["handler_calls"] >= gp["handler_calls"], g["handler_calls"] <= gp["handler_calls"] + 1,
@@ -209,7 +209,7 @@ def t_sleep_action(it, is_async):
         res = r[1]
         if isinstance(res, tuple) and res and res[0] == "coro_done":
             res = res[1]
-        p.oblige(f"{key}/ensures/returns-SleepDecision", isinstance(res, EnumVal) and res.cls == w.sd, prop="C16")
+        p.oblige(f"{key}/ensures/returns-SleepDecision", isinstance(res, EnumVal) and res.cls == w.sd, prop=None)
         for n, prop, f in sa_relation(it, w, pre, post, gp, g, res.t, sleep_s.t, fn_none, bs_none, lcv, lev, lcav, attempt.t):
             p.oblige(f"{key}/ensures/{n}", f, prop=None)
         for k in g.v:
